@@ -22,7 +22,8 @@ RULE = ("Hypothesis-generated Lipschitz objectives with closed-form global minim
         "true and >=10 trials. Distinct = distinct case digest.")
 ASSUMPTIONS = [
     "f* and L come from closed forms of the generated families; L is an upper bound of the true constant",
-    "precondition evaluated with M just before the last decision, conclusion with the final M (M_dec <= M_fin): "
+    "precondition evaluated with M just before the decision that reached the accuracy (the last one in a plain Solve; "
+    "an earlier one when batches went on past it), conclusion with the final M (M_dec <= M_fin): "
     "the check asserts the stated bound on a subset of the stated hypothesis",
     "comparison tolerance 1e-12*(1+|f*|+|best|)",
     "eps >= the per-dimension cost floor (1e-5 or, in a third of the 1-D cases, 1e-6; 3e-3, 0.03, 0.05, 0.1 for N=2..5); runs that hit itersLimit or "
@@ -169,7 +170,15 @@ def body(case):
     model, info = replay_history(n, r, hist, check_rule=False)
     L = ob.lipschitz(recipe["obj"])
     fstar = ob.exact_min(recipe["obj"])
-    m_dec = info[-1]["M_before"]
+    # the decision that reached the accuracy: the first trial that subdivided an interval shorter than eps.  In a plain
+    # Solve that is the last trial; when the first trials are requested in batches (DoGlobalIteration does not consult
+    # the stop rule) iterations may go on after it, M may grow afterwards, and the Solve that follows stops at once -
+    # the certificate is the one of the moment the accuracy was reached, with the M of that moment
+    from vlib.agp import hoelder_eps_cmp
+    dec = next((rec for rec in info[1:] if rec["D"] is not None and hoelder_eps_cmp(rec["D"], eps) <= 0), info[-1])
+    m_dec = dec["M_before"]
+    if dec is not info[-1]:
+        classes.append("accuracy-reached-before-the-last-trial")
     m_fin = model.M
     pre = r * m_dec >= K(n) * L
     if case["class"] == "unconditional" and not pre:
